@@ -39,7 +39,7 @@ def obligations(tier):
                      bound='fault ordinal 0..5 (more reads than the call makes), payload bytes symbolic, structure of the fed chunks fixed',
                      assumes=['jls_raw_rd/jls_raw_rd_header replaced by a feeder; MESSAGE_INTEGRITY is what raw.c returns on a checksum mismatch (C04-O1)']))
     npay = 16 if tier == 'quick' else 64
-    wmax = 2 if tier == 'quick' else 3
+    wmax = 2   # weight 3 was attempted (thorough, 6000 s per query, three back ends): no verdict -> stated as not decided
     for mode, extra, nm in (('HDR', ['WMAX=%d' % wmax], 'hdr_weight%d' % wmax), ('HDR', ['BURST=1'], 'hdr_burst32'), ('PAY', ['WMAX=%d' % wmax], 'payload_weight%d' % wmax), ('PAY', ['BURST=1'], 'payload_burst32')):
         ob = Obl('O3_strength_%s' % nm, 'c04_strength.c', units=[], defines=['MODE_%s=1' % mode, 'NPAY=%d' % npay] + extra,
                  unwind=max(66, npay + 12), timeout=600 if tier == 'quick' else 6000, backend=PORTFOLIO,
